@@ -23,7 +23,7 @@ PROPS = ["TfelVerif.C32.Props"]
 SRC = "src/Utilities/StringAlgorithms.cxx"
 ALPHA = [b"a", b"b", b","]
 BUDGET_MS = 400
-MAX_RESTARTS = 60
+MAX_RESTARTS = 20      # per slice; the remaining requests of the slice are then not run
 
 
 # ----------------------------------------------------------------------------- encoding
@@ -446,11 +446,16 @@ def run(ck):
     reported = set()
     disagreements = 0
     first_bad = None
+    not_run = 0
     observations = {}
     for i, r in enumerate(reqs):
         op = r[0]
         a = impl[i] if i < len(impl) else "missing"
         m = model[i] if i < len(model) else "missing"
+        if a == "not-run":
+            # the harness hung/crashed too often in this slice (every incident is reported below)
+            not_run += 1
+            continue
         want = spec(r)
         hist[op] = hist.get(op, 0) + 1
         cls = input_class(r)
@@ -528,7 +533,8 @@ def run(ck):
         "requests_by_function": hist, "requests_by_input_class": classes,
         "corpus": n_corpus, "exhaustive_requests": n_exh, "random_requests": n_rand,
         "disagreements": disagreements, "watchdog_or_crash_incidents": len(incidents),
-        "traces_validated_against_impl": len(reqs),
+        "requests_not_run_after_repeated_hangs": not_run,
+        "traces_validated_against_impl": len(reqs) - not_run,
         "observations": observations,
         "samples": samples,
     })
